@@ -30,6 +30,28 @@ import (
 // extra workloads: features that share memory but are outside the Exec model (matrix refs,
 // dynamic variables, listing while compiling, prefixed / group writers)
 var workloads = map[string]string{
+	// tasks reached by wildcard names and by aliases from parallel deps and calls (name resolution while running)
+	"wildcard-alias": `version: '3'
+silent: true
+tasks:
+  default:
+    deps: [build-a, build-b, bb, build-c, al1, al2, 'x:y:z', build-a]
+    cmds:
+      - task: build-d
+      - task: al1
+  'build-*':
+    aliases: [bb]
+    cmds: ['echo build {{index .MATCH 0}}']
+  '*:*:*':
+    cmds: ['echo {{.MATCH}}']
+  one:
+    aliases: [al1]
+    deps: [build-e, al2]
+    cmds: ['echo one']
+  two:
+    aliases: [al2]
+    cmds: ['echo two']
+`,
 	"matrix-ref": `version: '3'
 silent: true
 vars:
